@@ -8,7 +8,7 @@ Require Import GC.Base.Bytes GC.Codec.Types GC.Codec.Strconv GC.Codec.StrconvPro
 (* the property, for the class of unambiguous layouts and presentable values (DESIGN.md §6 C10) *)
 Definition C10_full_statement : Prop :=
   forall cb ti sv s,
-    unambiguous ti = true -> paths_ok ti = true -> presentable cb ti sv = true ->
+    unambiguous ti = true -> paths_ok ti = true -> numreq_ok ti = true -> presentable cb ti sv = true ->
     marshal cb ti sv = Ok s ->
     exists m, unmarshal cb ti s = Ok m /\ agree m (expected ti sv).
 
@@ -47,7 +47,7 @@ Qed.
 (* ... and nine of them lie inside the class (the two Sun MD5 layouts have adjacent positional optional
    fields and are treated layout by layout) *)
 Definition in_class (st : list sfield) : bool :=
-  match type_info st with Ok ti => unambiguous ti && paths_ok ti | _ => false end.
+  match type_info st with Ok ti => unambiguous ti && paths_ok ti && numreq_ok ti | _ => false end.
 Example C10_shipped_in_class :
   map in_class [m_layout_argon2; m_layout_bcrypt; m_layout_des; m_layout_desext; m_layout_md5; m_layout_nthash;
                 m_layout_sha1; m_layout_sha256; m_layout_sha512] = repeat true 9.
